@@ -1041,6 +1041,25 @@ fn try_transmit_broadcast(
     }))
 }
 
+/// Verification hooks (compiled only with `--cfg corro_verif`): lets an
+/// external harness run the private broadcast loop against its own transport.
+#[cfg(corro_verif)]
+pub mod verif_hooks {
+    use super::*;
+
+    pub async fn run_handle_broadcasts(
+        agent: Agent,
+        rx_bcast: CorroReceiver<BroadcastInput>,
+        transport: Transport,
+        cluster_size: NonZeroU32,
+        tripwire: Tripwire,
+        opts: BroadcastOpts,
+    ) {
+        let config = Arc::new(RwLock::new(make_foca_config(cluster_size)));
+        handle_broadcasts(agent, rx_bcast, transport, config, tripwire, opts).await
+    }
+}
+
 #[cfg(test)]
 mod tests {
     use super::*;
